@@ -5,38 +5,48 @@ CONFIG = dict(
     namespaces=["MahfModel.Props.C08"],
     shrink_lists=[],
     shrink=False,
-    level="proof",
-    rule=("(1) run-<template>: all 21 templates x 3 variants x random instance/iterations/seed (5 repetitions quick, 20 thorough): one "
-          "case = sequential run, the same again, a run of the cloned configuration, the Parallel evaluator under rayon pools of "
-          "1,2,3,4,8,16 threads with an objective that sleeps a pseudo-random 0-200 us per call (alternating original / cloned "
-          "configuration), the 4-thread pool again with other delays, the unwrapped problem type through the shared template table, "
-          "and (every 4th case) a fresh process; digest = every population of the final stack (solutions + objective bits), best "
-          "individual, evaluations, iterations, serialised log. (2) gen: generated GA-like configurations (selection x recombination x "
-          "mutation x replacement). (3) user-rng: a user-supplied counting generator inserted in optimize_with must be the generator "
-          "in the final state, must have been drawn from, and must reproduce the Random::new(seed) run. (4) exp: the real "
-          "par_experiment in a child process (run counts 1-6, pools 1/2/4/8, Parallel evaluator with delays) vs. single sequential "
-          "runs with seed = run number, comparing decoded CBOR logs. (5) children: child seeds = the parent's successive words, "
-          "equal seeds give equal first 64 words, parent position afterwards; pairs: 10^4 pairs of different seeds (bit flips, "
-          "successors, random) have different first 64 words. Every case is non-trivial; distinct = distinct input."),
+    level="proof, partial",
+    rule=("MODEL-VS-CODE cases (K, `agree` carries information): children — child seeds = the parent's successive words as predicted by "
+          "the model from the observed parent stream, equal seeds give equal first 64 words, a child's stream equals the stream of a "
+          "generator constructed directly from that word, parent position afterwards; exp — the generator seed observed inside every "
+          "job (problem p, run r) of the real par_experiment (read back from the exported logs) equals the model's jobSeed = r, for "
+          "1-3 problems with different domains x run counts 1-6 x pools 1/2/4/8. EXPLORATION cases (O only; `agree` is vacuously true, "
+          "the predicate is: all digests of the case are equal and belong to completed runs): run-<template> — all 21 templates x 4 "
+          "variants x random instance/iterations/seed (5 repetitions quick, 20 thorough): sequential run, again, cloned configuration, "
+          "Parallel evaluator under rayon pools of 1,2,3,4,8,16 threads with an objective that sleeps a pseudo-random 0-200 us per call "
+          "(alternating original / cloned configuration), the 4-thread pool again, the unwrapped problem type, every 4th case a fresh "
+          "process; gen — generated GA-like configurations; reuse — ONE configuration object run on problem A and then on problem B "
+          "(different dimension/domain), a clone made after that use, a parallel run, each against a pristine configuration on B; "
+          "user-rng — a user-supplied counting generator must be the generator in the final state, must have been drawn from, and must "
+          "reproduce the Random::new(seed) run (sequential and parallel); exp — decoded CBOR log of every (problem, run) file vs. the "
+          "single sequential run seeded with r; pairs — 10^4 pairs of different seeds have different first 64 words. Digest = every "
+          "population of the final stack (solutions + objective bits), best individual, evaluations, iterations, next generator word, "
+          "serialised log. Non-trivial = every case; distinct = distinct input."),
     nontrivial=lambda inp: True,
     trusted_base=[
-        "rayon's scheduler and the memory model are explored (pool sizes x perturbed timing), not modelled",
-        "ChaCha12 (rand_chacha) stream quality: 'different seeds give different streams' is an assumption (injective constructor) explored on 10^4 pairs",
+        "rayon's scheduler, the memory model, cloned trait objects and process boundaries are explored (pool sizes x perturbed timing x clone x reuse x fresh process), not modelled",
+        "ChaCha12 (rand_chacha): 'different seeds give different streams' is an ASSUMPTION (injective constructor, hypothesis of children_pairwise_distinct) explored on 10^4 pairs",
+        "problem.objective(&self, ..) is a pure function of the solution and the evaluators ignore the State they are handed (read off src/problems/evaluate.rs; not enforced by the types)",
         "FNV-1a 64-bit digests of canonical state strings (a collision could hide a difference)",
         "the wrapper problem J<P> delegates every trait to the wrapped problem and only adds the delay (checked: unwrapped digest equals wrapped digest)"],
-    assumptions=["SplitMix64-seeded generators", "thread::sleep granularity suffices to reorder completion"],
+    assumptions=["SplitMix64-seeded generators", "thread::sleep granularity suffices to reorder completion",
+                 "constructor injectivity (hinj) for the different-seeds clause"],
     timeout_quick=900,
 )
 CONFIG.update(
-    level_text=("Lean 4 theorems: parallel evaluation modelled as one write per index in an arbitrary completion order equals sequential "
-                "evaluation for every schedule that is a permutation of the indices (no draw is taken: the evaluators have no generator "
-                "argument), lifted to runs of a step language with drawing steps (run_schedule_independent, same_seed_same_run); "
-                "optimize_with keeps a supplied generator and inserts the default iff none is present; child generators are the parent's "
-                "successive words through the constructor, equal parents give equal children; any order of a step's exported entries "
-                "denotes the same map. Runtime exploration on the real code compares digests of complete runs across evaluators, pool "
-                "sizes, perturbed timing, cloning, processes and the batch experiment runner."),
-    level_note=("proof, partial: the order-independence theorem is about the model; rayon's real interleavings, the memory model and "
-                "ChaCha's stream quality are outside it and only explored. There is nothing for the model to predict about a digest "
-                "except that all digests of one case are equal, so `agree` is that trivial prediction (agree = holds); for child "
-                "generators the model predicts the child seeds from the observed parent words."),
+    level_text=("Proof of schedule-independence of evaluation and of seed derivation ON THE MODEL: parallel evaluation (one write per index in "
+                "an arbitrary completion order) equals sequential evaluation for every schedule that is a permutation of the indices, and "
+                "only the order of objective calls differs (evalPar_eq_evalSeq, eval_calls_perm); runs of a step language whose steps draw "
+                "from the generator between evaluations, push/merge populations, update best and log end in the same populations x "
+                "generator position x evaluations x best x log for all legal schedules (run_schedule_independent); optimize_with runs on "
+                "the supplied generator whatever the default is (user_generator_decides_run); child generators are the parent's successive "
+                "words through the constructor (children_deterministic; pairwise distinct RELATIVE to an injective constructor); the "
+                "experiment's file (p, r) is the single run of p seeded with r for every run count, problem count and job order "
+                "(experiment_seed_independent); any order of a step's exported entries denotes the same map. The property itself (real "
+                "scheduler, rayon, cloned trait objects, reuse of a configuration object, process boundaries) is DECIDED BY EXPLORATION: "
+                "digests of complete final states. No theorem for the cloning clause (the model has no component state to copy)."),
+    level_note=("partial: only the `children` and `exp` (seed) cases compare a model prediction with the code; for all digest cases `agree` "
+                "is vacuous and the verdict is the exploration predicate 'all digests equal'. The step language is a small model, not the "
+                "component interpreter of /repo; it is not executed against the code. rayon's real interleavings, the memory model and "
+                "ChaCha's stream quality are outside the model."),
 )
